@@ -157,6 +157,19 @@ def decorate(ast, rnd):
             lst = rnd.choice(lists)
             lst.insert(rnd.randint(0, len(lst)), {"k": "cmt", "style": "raw", "lines": [pair(marker_text(rnd, lang, set()))]})
             labels.add("stray:comment_line")
+    if lang == "TypeScript" and all(n["k"] in ("func", "s", "blank", "cmt") for n in ast["items"]):
+        # Overload signatures (typed, body-less) right before a top-level function: their header must not pick up a marked
+        # function's block. Only in programs whose top level holds nothing but functions and simple statements, so that every
+        # brace block is the body of (or inside) a real function and the signature can never enclose a neighbour.
+        lst = ast["items"]
+        i = 0
+        while i < len(lst):
+            c = lst[i]
+            if c["k"] == "func" and c.get("shape") == "function" and not c.get("is_async") and not c.get("prefix") and rnd.random() < 0.5:
+                lst.insert(i, {"k": "s", "t": f"function {c['name']}(first: number): string;", "tc": None})
+                labels.add("ts_overload_signature")
+                i += 1
+            i += 1
     for f in funcs:
         if rnd.random() > 0.4:
             continue
@@ -166,7 +179,10 @@ def decorate(ast, rnd):
             labels.add("decoy_on_marked_function")
         lead = "#" if lang == "Python" else "//"
         if kind == "word_later":
-            f["name_tc"] = pair(rnd.choice([f"{lead} see nocl", f"{lead} not nocl", f"{lead} todo nocl later", f"{lead} x nocl"]))
+            texts = [f"{lead} see nocl", f"{lead} not nocl", f"{lead} todo nocl later", f"{lead} x nocl"]
+            # the text after the leader starts with other punctuation, not with the marker
+            texts += ["#; nocl", "#;nocl", "# ; nocl"] if lang == "Python" else ["//* nocl", "//*nocl", "/*/ nocl */", "//; nocl", "/* * nocl */"]
+            f["name_tc"] = pair(rnd.choice(texts))
         elif kind == "above":
             f["above_c"] = pair(marker_text(rnd, lang, set()))
         elif kind == "later_header_line":
@@ -241,6 +257,20 @@ def run_case(case):
         # the neutral program itself is not analysed as the grammar says (C01's subject); do not judge C17 on it
         return None if case.get("lenient") else ("base-mismatch", f"{lang}: neutral program: expected to find {len(marked_idx)} marked functions among the results, found {removed}\n{rd_n.text}")
     if got == want:
+        return None
+    # The second sentence of the statement only speaks about functions that neither enclose nor are nested in another
+    # function. Whether that holds is decided on what the TOOL reports for the neutral program (a body-less signature may
+    # legitimately be reported with a span that swallows its neighbours): if a marked function's span is entangled with
+    # another reported span, only the first sentence (who is omitted) is checked.
+    def span(m):
+        return ((m[1], m[2]), (m[3], m[4]))
+
+    marked_spans = [span(m) for m in base if (m[1], m[2]) in starts]
+    entangled = any(
+        (a[0] <= b[0] and b[1] <= a[1]) or (b[0] <= a[0] and a[1] <= b[1])
+        for a in marked_spans for m in base if (b := span(m)) != a
+    )
+    if entangled and [g[:3] for g in got] == [w[:3] for w in want]:
         return None
     gs, ws = set(got), set(want)
     if [g for g in got if g in ws] == want and len(got) > len(want):
